@@ -49,8 +49,8 @@ structure StdlibFns where
   readRune : BR → (Rune × Nat × Bool) × BR
   /-- `b.UnreadRune()`: none = `ErrInvalidUnreadRune` -/
   unreadRune : BR → Option BR
-  /-- `b.ReadByte()` on what is buffered: none = nothing buffered (the reading side calls it only right after
-      an `UnreadRune`) -/
+  /-- `b.ReadByte()`: none = error.  Only its behaviour on a non-empty buffer is part of the contract (the
+      reading side calls it only right after an `UnreadRune`). -/
   readByte : BR → Option (Nat × BR)
   /-- `b.Buffered()` -/
   buffered : BR → Nat
@@ -94,9 +94,10 @@ structure StdlibContract (F : StdlibFns) : Prop where
   /-- UnreadRune: allowed only when the last operation was a successful ReadRune; restores exactly the
       reader as it was (filled) before that rune was consumed; not allowed twice. -/
   unread : ∀ b : BR, F.unreadRune b = b.last.map fun rd0 => ⟨rd0, none⟩
-  /-- ReadByte: nothing buffered ⇒ (here) an error. -/
-  byte_empty : ∀ b : BR, b.rd.buf = [] → F.readByte b = none
-  /-- ReadByte: the first buffered byte, consumed; `UnreadRune` not allowed afterwards. -/
+  /-- ReadByte with something buffered: the first buffered byte, consumed; `UnreadRune` not allowed
+      afterwards.  (Nothing is assumed of `ReadByte` on an empty buffer — the real one would read on; the
+      reading side calls it only right after a successful `UnreadRune`, when the unread rune is buffered:
+      `Props.C02Stdlib.readByte_only_with_buffer`.) -/
   byte_cons : ∀ (b : BR) x t, b.rd.buf = x :: t → F.readByte b = some (x, ⟨b.rd.consume 1, none⟩)
   /-- Buffered: the number of bytes that can be read from the buffer. -/
   buffered_len : ∀ b : BR, F.buffered b = b.rd.buf.length
